@@ -7,7 +7,9 @@ func (e *BinaryOpExpr) Check(ctx *CheckCtx) error {
 	if err := e.Right.Check(ctx); err != nil {
 		return err
 	}
-	e.tryRewriteExpr(ctx)
+	if err := e.tryRewriteExpr(ctx); err != nil {
+		return err
+	}
 	switch e.Op {
 	case And, Or:
 		return e.checkWithAndOr(ctx)
@@ -24,10 +26,13 @@ func (e *BinaryOpExpr) Check(ctx *CheckCtx) error {
 	}
 }
 
-func (e *BinaryOpExpr) tryRewriteExpr(ctx *CheckCtx) {
+func (e *BinaryOpExpr) tryRewriteExpr(ctx *CheckCtx) error {
 	switch lexp := e.Left.(type) {
 	case *NameExpr:
 		if nexpr, have := ctx.GetNamedExpr(lexp.Data); have {
+			if ctx.closesCycle(nexpr) {
+				return NewSyntaxError(lexp.Pos, "Field %s is defined in terms of itself", lexp.Data)
+			}
 			e.Left = &FieldReferenceExpr{
 				Name:      lexp,
 				FieldExpr: nexpr,
@@ -37,12 +42,16 @@ func (e *BinaryOpExpr) tryRewriteExpr(ctx *CheckCtx) {
 	switch rexp := e.Right.(type) {
 	case *NameExpr:
 		if nexpr, have := ctx.GetNamedExpr(rexp.Data); have {
+			if ctx.closesCycle(nexpr) {
+				return NewSyntaxError(rexp.Pos, "Field %s is defined in terms of itself", rexp.Data)
+			}
 			e.Right = &FieldReferenceExpr{
 				Name:      rexp,
 				FieldExpr: nexpr,
 			}
 		}
 	}
+	return nil
 }
 
 func (e *BinaryOpExpr) checkWithAndOr(ctx *CheckCtx) error {
@@ -252,8 +261,11 @@ func (e *FunctionCallExpr) Check(ctx *CheckCtx) error {
 		return NewSyntaxError(e.Name.GetPos(), "Invalid function name")
 	}
 	if len(e.Args) > 0 {
-		for i, a := range e.Args {
-			a = e.tryRewriteExpr(i, ctx)
+		for i := range e.Args {
+			a, err := e.tryRewriteExpr(i, ctx)
+			if err != nil {
+				return err
+			}
 			if err := a.Check(ctx); err != nil {
 				return err
 			}
@@ -262,20 +274,23 @@ func (e *FunctionCallExpr) Check(ctx *CheckCtx) error {
 	return nil
 }
 
-func (e *FunctionCallExpr) tryRewriteExpr(idx int, ctx *CheckCtx) Expression {
+func (e *FunctionCallExpr) tryRewriteExpr(idx int, ctx *CheckCtx) (Expression, error) {
 	ret := e.Args[idx]
 	switch aexp := ret.(type) {
 	case *NameExpr:
 		if nexpr, have := ctx.GetNamedExpr(aexp.Data); have {
+			if ctx.closesCycle(nexpr) {
+				return nil, NewSyntaxError(aexp.Pos, "Field %s is defined in terms of itself", aexp.Data)
+			}
 			narg := &FieldReferenceExpr{
 				Name:      aexp,
 				FieldExpr: nexpr,
 			}
 			e.Args[idx] = narg
-			return narg
+			return narg, nil
 		}
 	}
-	return ret
+	return ret, nil
 }
 
 func (e *NameExpr) Check(ctx *CheckCtx) error {
